@@ -123,6 +123,16 @@ func checkIdentity(in *graph.Instance, wrap *graph.WrapPP) (labels []string, non
 			}
 		}
 	}
+	// looking a component up again returns the very same object
+	if !lookupFailed {
+		for n, first := range lookup {
+			var again any
+			var aerr2 error
+			if p := kit.Protect(func() { again, aerr2 = in.Out.App.GetComponentByName(n) }); p == nil && aerr2 == nil && again != first {
+				return nil, false, fmt.Errorf("GetComponentByName(%q) returned %v first and %v on the second call", n, first, again)
+			}
+		}
+	}
 	// typed lookups through the public query options must return the same objects, completely
 	if !lookupFailed {
 		var nodes []any
@@ -254,7 +264,7 @@ func runCase(t interface {
 func TestIdentity(t *testing.T) {
 	kit.Rec.Rule(rule)
 	rapid.Check(t, func(t *rapid.T) {
-		s := graph.Gen(t, graph.GenOpts{MinNodes: 2, MaxNodes: 6, Variants: "NNLP", Aliases: true, Lookups: true})
+		s := graph.Gen(t, graph.GenOpts{MinNodes: 2, MaxNodes: 6, Variants: "NNLPE", Aliases: true, Lookups: true})
 		wrapNames := map[int]bool{}
 		plans := map[int]graph.WrapPlan{}
 		switch rapid.IntRange(0, 2).Draw(t, "wrapmode") {
